@@ -17,7 +17,7 @@ RULE = ('same seeded program generator as C01 with operand reuse (legs shared th
 ASSUMPTIONS = ['shallow results (copy(deep=False), replace_label, add_trivial_leg, gauge_total_charge, '
                'unary/binary_blockwise, scale_axis, sort_legcharge, complex_conj) are documented to share block data']
 ANCHORS = base.ANCHORS
-REQUIRED_COUNTERS = {'monitor.network_fingerprints': 300, 'network.results_mutated': 100, 'netop.get_theta': 10, 'netop.get_B': 10,
+REQUIRED_COUNTERS = {'monitor.linalg_fingerprints': 500, 'linalg.qr': 30, 'linalg.svd': 30, 'monitor.network_fingerprints': 300, 'network.results_mutated': 100, 'netop.get_theta': 10, 'netop.get_B': 10,
                      'monitor.fingerprints': 5000, 'op.linear': 20, 'op.tensordot': 20, 'op.transpose': 20,
                      'op.setitem': 10, 'op.legops': 20}
 WEIGHTS = {'misc': 4.0, 'linear': 5.0, 'tensordot': 5.0, 'legops': 4.0, 'chargeops': 2.0}
@@ -30,16 +30,88 @@ def plan(tier, seed, jobs):
     for cfg, n, nsh in CONFIGS[tier]:
         units += shard(cfg, n, nsh, part='program', timeout=3000, time_budget=75 if tier == 'quick' else 1500)
     units += shard('compiled', 240 if tier == 'quick' else 4000, 4, part='network', timeout=3000, time_budget=75 if tier == 'quick' else 1500)
+    units += shard('compiled', 1200 if tier == 'quick' else 20000, 3, part='linalg', timeout=3000, time_budget=75 if tier == 'quick' else 1500)
     return units
+
+
+LINALG_FUNCS = ['svd', 'qr', 'lq', 'eigh', 'eig', 'eigvalsh', 'eigvals', 'expm', 'pinv', 'polar', 'orthogonal_columns', 'speigs', 'norm']
 
 
 def worker_init(ctx):
     warnings.simplefilter('ignore')
+    if ctx.unit.get('part') == 'linalg':
+        install_linalg_monitor(ctx)
+
+
+def install_linalg_monitor(ctx):
+    """Operand-unchanged monitor around every matrix factorization: the input tensors, their LegCharge / LegPipe objects (which are
+    shared with other tensors) and the ChargeInfo are fingerprinted before the call and re-checked afterwards."""
+    import types
+    from tenpy.linalg import np_conserved as npc
+    from vf import tshadow
+    from vf.monitor import patch_everywhere
+
+    def wrap(name, f):
+        def g(*args, **kw):
+            arrs = [x for x in list(args) + list(kw.values()) if isinstance(x, npc.Array)]
+            if kw.get('overwrite_a'):
+                return f(*args, **kw)  # documented to destroy the input
+            snap = tshadow.snapshot([types.SimpleNamespace(arr=a) for a in arrs])
+            res = f(*args, **kw)
+            ctx.count('monitor.linalg_fingerprints')
+            ctx.count('linalg.' + name)
+            d = tshadow.diff_snapshot(snap)
+            if d:
+                ctx.violation('%s:%s' % (name, d[0][0]), '%s(%s) changed its operand: %s' % (name, ', '.join('%s=%r' % kv for kv in kw.items())[:200], d[0][1]),
+                              {'function': name, 'kwargs': repr(kw)[:300]})
+            return res
+        g.__wrapped__ = f
+        return g
+
+    n = 0
+    for name in LINALG_FUNCS:
+        f = getattr(npc, name, None)
+        if f is not None:
+            n += patch_everywhere(f, wrap(name, f))
+    ctx.count('monitor.linalg_rebinds', n)
+
+
+class _Proxy:
+    """The workload of another check is used as a carrier: its own verdicts are not this property's."""
+    def __init__(self, ctx):
+        self.__dict__['_ctx'] = ctx
+
+    def __getattr__(self, k):
+        return getattr(self._ctx, k)
+
+    def __setattr__(self, k, v):
+        setattr(self._ctx, k, v)
+
+    def violation(self, *a, **k):
+        self._ctx.count('linalg.carrier_verdicts_ignored')
+
+    def count(self, key, n=1):
+        if key.startswith('monitor.') or key.startswith('linalg.'):
+            self._ctx.count(key, n)
+
+    def sig(self, *a, **k):
+        pass
+
+    def sample(self, *a, **k):
+        pass
+
+
+def case_linalg(ctx, i):
+    import checks.C05 as C5
+    C5.run_case(_Proxy(ctx), i)
+    ctx.sig(('linalg', i % 97), nontrivial=True)
 
 
 def run_case(ctx, i):
     if ctx.unit.get('part') == 'network':
         return case_network(ctx, i)
+    if ctx.unit.get('part') == 'linalg':
+        return case_linalg(ctx, i)
     base.run_program(ctx, i, MONITORS, weights=WEIGHTS, readonly_legs=(i % 2 == 0 and ctx.config.startswith('pure')))
 
 
@@ -266,6 +338,13 @@ def case_network(ctx, i):
                 res = st.get_op(a + ' ' + b)
                 case['ops'].append([name, a, b])
                 ok = check(name, 'get_op(%r)' % (a + ' ' + b)) and mutate(res, name)
+            elif k == 13 and rng.random() < 0.5:
+                name = 'MPO.make_U'
+                dt = [0.05, -0.05j, 0.1 + 0.02j][int(rng.integers(3))]
+                ap = str(rng.choice(['I', 'II']))
+                U = H.make_U(dt, approximation=ap)
+                case['ops'].append([name, str(dt), ap])
+                ok = check(name, 'make_U(%r, %r)' % (dt, ap)) and mutate([U.get_W(j)], name)
             else:
                 name = 'get_SL/get_SR'
                 psi.get_SL(j)
